@@ -443,14 +443,15 @@ def afm_file(shape, cards, opts, ctc_code) -> list:
     n = R.n_features(shape)
     names = ['A', 'B', 'C', 'D', 'E', 'F', 'G'][:n]
     trees = AFM_CTCS[ctc_code] if n >= 3 else []
-    wtrees = list(trees)
+    blockpos = None
     if opts.get('block') and n >= 3:
-        # names inside a block are qualified with the block's feature; the plain constraints around it are not
+        # how the names inside a feature-scoped block are qualified is not fixed here: the constraint read from the block is
+        # set aside (one constraint must be there), the plain constraints around it must be read exactly as written
         opts = dict(opts, block=(opts['block'] % (len(trees) + 1), names[1], ('IMPLIES', 'B', 'C')))
-        wtrees.insert(opts['block'][0], ('IMPLIES', names[1] + '.B', names[1] + '.C'))
+        blockpos = opts['block'][0]
     elif opts.get('block'):
         opts = dict(opts, block=None)
-    want = R.build(shape, cards, names=names, ctcs=[R.ctc('c%d' % i, t) for i, t in enumerate(wtrees)])
+    want = R.build(shape, cards, names=names, ctcs=[R.ctc('c%d' % i, t) for i, t in enumerate(trees)])
     text = afm_emit(shape, cards, names, opts, trees)
     try:
         with rt.TempDir() as d:
@@ -460,6 +461,10 @@ def afm_file(shape, cards, opts, ctc_code) -> list:
             got = AFMReader(p).transform()
     except Exception as exc:
         return ['AFM reader raises %s: %s | text %r' % (type(exc).__name__, exc, text)]
+    if blockpos is not None:
+        if len(got.ctcs) != len(trees) + 1:
+            return ['AFM document with a feature block: %d constraints read, %d written | text %r' % (len(got.ctcs), len(trees) + 1, text)]
+        del got.ctcs[blockpos]
     if not afmio.same(want, got):
         return ['AFM document read as %r %r, it denotes %r %r | text %r' % (afmio.canon(got), [R.node_tree(c.ast.root) for c in got.ctcs], afmio.canon(want), [R.node_tree(c.ast.root) for c in want.ctcs], text)]
     return []
